@@ -1,6 +1,7 @@
 package main
 
 import (
+	"context"
 	"bytes"
 	"encoding/xml"
 	"errors"
@@ -139,6 +140,7 @@ type fsReq struct {
 	ctype        string
 	body         string
 	fault        int  // -1 = none
+	cancelAt     int  // 0 = none; k+1 = the request context is cancelled once k body bytes were read (1 = before the handler runs), the body itself reads on to EOF
 	pf           byte // a n f o m : form of the XML body (when ctype is XML)
 }
 
@@ -167,6 +169,36 @@ func (f *faultReader) Read(p []byte) (int, error) {
 	return n, nil
 }
 func (f *faultReader) Close() error { return nil }
+
+// cancelReader cancels the request context after `at` bytes and keeps delivering the body: a client that goes away
+// right after sending a small body which the server has already buffered
+type cancelReader struct {
+	data   []byte
+	read   int
+	at     int
+	cancel func()
+}
+
+func (c *cancelReader) Read(p []byte) (int, error) {
+	if c.read >= c.at {
+		c.cancel()
+	}
+	if len(c.data) == 0 {
+		return 0, io.EOF
+	}
+	n := len(p)
+	if c.read < c.at && n > c.at-c.read {
+		n = c.at - c.read
+	}
+	if n > len(c.data) {
+		n = len(c.data)
+	}
+	copy(p, c.data[:n])
+	c.data = c.data[n:]
+	c.read += n
+	return n, nil
+}
+func (c *cancelReader) Close() error { return nil }
 
 var pfBodies = map[byte]string{
 	'a': `<?xml version="1.0"?><D:propfind xmlns:D="DAV:"><D:allprop/></D:propfind>`,
@@ -290,8 +322,19 @@ func (sb *sandbox) do(rq fsReq) (line string, goOut string) {
 		rdr = &faultReader{data: []byte(body), limit: rq.fault}
 		faultTok = fmt.Sprint(rq.fault)
 	}
+	reqCtx := bgCtx
+	if rq.cancelAt > 0 && rq.fault < 0 {
+		ctx, cancel := context.WithCancel(bgCtx)
+		defer cancel()
+		reqCtx = ctx
+		if rq.cancelAt == 1 {
+			cancel()
+		}
+		rdr = &cancelReader{data: []byte(body), at: rq.cancelAt - 1, cancel: cancel}
+		faultTok = fmt.Sprintf("c%d", rq.cancelAt-1)
+	}
 	req := &http.Request{Method: rq.method, URL: &url.URL{Path: rq.path}, Header: hdr, Body: rdr, Proto: "HTTP/1.1", ProtoMajor: 1, ProtoMinor: 1, Host: "example.com"}
-	req = req.WithContext(bgCtx)
+	req = req.WithContext(reqCtx)
 	rec := httptest.NewRecorder()
 	panicked := false
 	done := make(chan struct{})
@@ -481,6 +524,12 @@ func universeRequests(thorough bool, salt int) []fsReq {
 			}
 		}
 		rs = append(rs, fsReq{method: "PUT", path: p, body: "", fault: -1}, fsReq{method: "PUT", path: p, body: "hello", fault: 0}, fsReq{method: "PUT", path: p, body: "hello", fault: 3})
+		// the request context is cancelled at an offset while the body still reads to its end
+		for _, at := range []int{0, 2, 5} {
+			rs = append(rs, fsReq{method: "PUT", path: p, body: "hello", fault: -1, cancelAt: at + 1})
+		}
+		rs = append(rs, fsReq{method: "PUT", path: p, body: "new", ifnm: 's', fault: -1, cancelAt: 1}, fsReq{method: "PUT", path: p, body: "new", ifm: 'c', fault: -1, cancelAt: 1},
+			fsReq{method: "DELETE", path: p, fault: -1, cancelAt: 1}, fsReq{method: "MKCOL", path: p, fault: -1, cancelAt: 1})
 		for _, ct := range []string{"", "application/xml", "text/plain"} {
 			rs = append(rs, fsReq{method: "MKCOL", path: p, ctype: ct, fault: -1})
 		}
@@ -513,6 +562,17 @@ func universeRequests(thorough bool, salt int) []fsReq {
 				}
 			}
 		}
+	}
+	// names the operating system refuses for a reason the server has no specific status for (a component longer
+	// than 255 bytes: ENAMETOOLONG): the model abstains, the answer is judged for what it discloses and changes
+	long := "/a/" + strings.Repeat("n", 300)
+	for _, m := range []string{"GET", "HEAD", "OPTIONS", "PROPFIND", "DELETE", "MKCOL"} {
+		rs = append(rs, fsReq{method: m, path: long, fault: -1})
+	}
+	rs = append(rs, fsReq{method: "PUT", path: long, body: "x", fault: -1})
+	for _, m := range []string{"COPY", "MOVE"} {
+		rs = append(rs, fsReq{method: m, path: long, dest: sp("/c"), fault: -1}, fsReq{method: m, path: "/a", dest: sp(long), fault: -1},
+			fsReq{method: m, path: "/b", dest: sp(long), ow: "F", fault: -1})
 	}
 	return rs
 }
@@ -672,6 +732,8 @@ func famFsReq(o *Out, r *RNG, thorough bool) {
 				}
 				if r.Chance(10) {
 					rq.fault = r.Intn(3)
+				} else if r.Chance(8) {
+					rq.cancelAt = 1 + r.Intn(len(rq.body)+1)
 				}
 				if r.Chance(20) {
 					rq.ifm = "uscom"[r.Intn(5)]
